@@ -176,7 +176,7 @@ class C17GenericND(Harness):
         for form in FORMS_ND:
             for wk in ("none", "list"):
                 yield f"cnd-{form}-w{wk}", dict(form=form, weights=wk, bad=None)
-        for bad in ("one_dim", "unequal_columns", "weights_len", "ragged_rows", "axis_names_len", "h3_four_columns", "h2_dim_three_columns", "h_dim_too_small", "h2_second_none", "h2_first_none", "h2_scalars"):
+        for bad in ("one_dim", "unequal_columns", "weights_len", "ragged_rows", "axis_names_len", "h3_four_columns", "h3_two_columns_int_bins", "h3_four_columns_int_bins", "h2_dim_three_columns", "h_dim_too_small", "h2_second_none", "h2_first_none", "h2_scalars"):
             yield f"cnd-bad-{bad}", dict(form="list_of_rows", weights="none", bad=bad)
         yield "cnd-named-columns", dict(form="h2_named", weights="none", bad=None)
         for form in ("h3_named", "h3_lists_explicit_names", "h2_named_explicit_names", "h2_lists_explicit_names", "rows_explicit_names"):
@@ -214,6 +214,10 @@ class C17GenericND(Harness):
                 r = E.attempt(fac.h2, None, [rows[0][1], rows[1][1]], bins)
             elif bad == "h3_four_columns":
                 r = E.attempt(fac.h3, np.asarray([[rows[0][0], rows[0][1], rows[1][0], rows[1][1]]], dtype=float), [np.asarray([0.0, 1.0])] * 3)
+            elif bad == "h3_two_columns_int_bins":      # one table with the wrong number of columns and bins that do not reveal the dimension
+                r = E.attempt(fac.h3, arr, 2)
+            elif bad == "h3_four_columns_int_bins":
+                r = E.attempt(fac.h3, np.asarray([[rows[0][0], rows[0][1], rows[1][0], rows[1][1]], [rows[1][1], rows[1][0], rows[0][1], rows[0][0]]], dtype=float), 2)
             elif bad == "h2_dim_three_columns":
                 r = E.attempt(fac.h, np.asarray([[rows[0][0], rows[0][1], rows[1][0]]], dtype=float), [np.asarray([0.0, 1.0])] * 2, dim=2)
             elif bad == "h_dim_too_small":
